@@ -4,7 +4,7 @@ from __future__ import annotations
 import ast
 from typing import Any, Dict, List, Optional, Tuple
 
-from ..kit import Case, Ctx, calls, calls_target, kw, loops, normal_paths, poly_of, product_worlds, rule, short, stores, table_check_cases
+from ..kit import caller_ok, Case, Ctx, calls, calls_target, kw, loops, normal_paths, poly_of, product_worlds, rule, short, stores, table_check_cases
 from ..paths import Event, Path
 from ..terms import NONE, Term, key, strip_ver, substitute, subterms
 from .runner import ADD, CANCEL, EXEC, HO, IT, RUN, handling_blocks
@@ -232,7 +232,7 @@ def check_call_sites(ctx: Ctx, aspects) -> None:
     for name in (ctx.program.cls("Simulator").methods if "callers" in aspects else []):
         if name.startswith("_trigger_event_"):
             for s in ctx.cg.sites_calling(f"Simulator.{name}"):
-                ctx.check(s.caller.cls is not None and s.caller.cls.name == "SequentialRunner", s.caller, s.node, f"caller of {name}", "SequentialRunner", s.caller.qualname)
+                ctx.check(caller_ok(ctx, s.caller, lambda g: g.cls is not None and g.cls.name == "SequentialRunner"), s.caller, s.node, f"caller of {name}", "SequentialRunner", s.caller.qualname)
 
 
 @rule("C13.R4", "a hook cannot be registered twice, is entered at most once per time, and ill-formed hooks are rejected at construction", "T3 guard + T6", floor=3)
